@@ -27,6 +27,11 @@ CLAIMED["C12"] = ("fault_enumeration",
  "For every catalogue program (succeeding and failing, failure early/late/in loop/include/layout) and every Template entry point, the check enumerates: a plain run, a context cancelled before the call, a failing expression injected at the start and end of every file, and a destination writer that fails at every single byte offset of the reference output. Error returns must leave the writer untouched, nil returns must have delivered the complete document (END marker), and any writer failure must surface as a non-nil error. Exhaustive over catalogue x entry points x offsets; the catalogue itself is a finite sample of templates.",
  "Scope is the Template render methods named in the statement. Completeness is recognised by an END marker element that ends every catalogue program. Error wording is not asserted.",
  "DESIGN.md §6 C12")
+CLAIMED["C11"] = ("exploration",
+ "bounded exhaustive enumeration (value kinds x directive positions; include/layout graphs with every cycle shape) + rapid grammar-aware template mutation + native go fuzz; validity predicate with deterministic step budgets (file opens, output bytes, stack size) and crash attribution via an in-flight case file",
+ "Every value kind (plus pointer cycles, typed nils, non-string map keys, unexported fields, 200-deep data) is placed in 29 directive positions and as root data; every include graph over three files with one include edge per file in six placements (every cycle shape) is combined with layout cycles; rapid mutates catalogue-like templates with ~80 malformed expressions, unbalanced mustaches, deep nesting, stray chain members and doubled slots; the thorough tier adds 120 s of native coverage-guided fuzzing of raw template bytes. A case passes iff the call returns without a panic within 4000 file opens, 32 MiB of output and 128 MiB of stack. Exhaustive for the two enumerated families within their bounds; sampled for template sources.",
+ "Non-termination is decided by deterministic budgets, so a pure CPU loop that neither opens files nor writes would only hit the driver watchdog (exit 2, inconclusive). Unconditional include cycles with fan-out >= 2 and self-containing map/slice values (fmt itself overflows on them) are outside the asserted domain. User functions that panic are the user's defect.",
+ "DESIGN.md §6 C11")
 NOT_YET = "check under construction in this session; not claimed until it is built and silent on the unchanged tree"
 
 def main():
